@@ -22,12 +22,15 @@ Oracle clauses (names as reported):
                                 induced_set differ from the model (as sets)
   (iv)  merge-items, merge-tags, merge-records, merge-accepts-contradiction,
         merge-rejects-compatible
-        merge-refused-state-changed   (C08-type; only counted in the evidence
-                                unless GFAMC_C17_UNCHANGED=1, see report)
+        merge-refused-state-changed   the refused line changed the Gfa (C08-type;
+                                GFAMC_C17_UNCHANGED=0 only counts it)
   any   foreign-exception       an exception that is not a gfapy.Error
 
 Not demanded (DESIGN.md C17 + triage): which of the two joined segments comes
-first in an edge step; the start side of a leading edge; lists in which a
+first in an edge step (a walk that exists only under the adjacency reading of
+the E lines, not under the direction-by-field-order reading, or that crosses
+an edge in both directions, may be returned OR reported as an error); the
+start side of a leading edge; lists in which a
 segment / edge is not incident to its neighbouring edge / segment; seams at
 which inlining the items and inlining the captured walk of a nested path
 differ; gaps listed in sets; item order of a multi-line U group; what
@@ -36,11 +39,9 @@ are resolved -- tests/testdata/valid_path.gfa2 is a path without any edge).
 """
 import os
 import sys
-import json
 import itertools
 import subprocess
 import gfapy
-from .. import observe
 from ..ref import groups as R
 from ..runner import (guard, timed_out, h, new_result, mkviolation,
                       HarnessTimeout, REPO, VERIF)
@@ -48,7 +49,7 @@ from ..runner import (guard, timed_out, h, new_result, mkviolation,
 PROPERTY = "C17"
 STRICT_VALIDATE = False     # True: demand an error from validate() for
                             # non-contiguous paths (over-demand, see docstring)
-JUDGE_UNCHANGED = os.environ.get("GFAMC_C17_UNCHANGED") == "1"
+JUDGE_UNCHANGED = os.environ.get("GFAMC_C17_UNCHANGED", "1") != "0"
 KEEP_PER_SIG = 4            # smallest witnesses kept per (clause, signature)
 
 T = "\t".join
@@ -333,6 +334,13 @@ def _judge_path(doc, name, grp, verr, probs, info, deep):
   ob = obs_path(grp, deep)
   info["ops"] += 1
   info["notes"].append(("verdict:path:" + v[0], None))
+  its = doc.group[name].items
+  feat = "/".join(
+      (["leading-edge"] if doc.kind.get(its[0][0]) == "E" else []) +
+      (["nested+"] if any(doc.kind.get(n) == "O" and o == "+"
+                          for n, o in its) else []) +
+      (["nested-"] if any(doc.kind.get(n) == "O" and o == "-"
+                          for n, o in its) else [])) or "plain"
   if v[0] != "lenient":
     info["nontrivial"] = True
   if ob[0] == "foreign":
@@ -347,14 +355,14 @@ def _judge_path(doc, name, grp, verr, probs, info, deep):
       probs.append(("segments-edges-differ", "", {"captured_path":
                     fmt_walk(walk)}, ob[2]))
     if v[0] in ("error", "unresolved"):
-      probs.append(("accepts-invalid-items", v[0], fmt_verdict(v),
+      probs.append(("accepts-invalid-items", feat, fmt_verdict(v),
                     {"captured_path": fmt_walk(walk)}))
     elif bad:
-      probs.append(("invalid-walk", v[0], {"valid walk": True,
+      probs.append(("invalid-walk", feat, {"valid walk": True,
                     "model": fmt_verdict(v)},
                     {"captured_path": fmt_walk(walk), "problems": bad}))
     elif v[0] in ("walks", "either") and tuple(walk) not in v[1]:
-      probs.append(("wrong-walk", "", fmt_verdict(v),
+      probs.append(("wrong-walk", feat, fmt_verdict(v),
                     {"captured_path": fmt_walk(walk)}))
     info["outcome"].append("{}:walk/{}".format(v[0], len(walk)))
     # conversion to a GFA1 path uses the captured segments and edges
@@ -372,9 +380,20 @@ def _judge_path(doc, name, grp, verr, probs, info, deep):
                       {"segments": g1[1], "overlaps": g1[3]}))
   else:
     if v[0] == "walks":
-      probs.append(("rejects-valid-path", ob[1], fmt_verdict(v),
+      probs.append(("rejects-valid-path", feat + ":" + ob[1], fmt_verdict(v),
                     {"raised": ob[1]}))
     info["outcome"].append("{}:{}".format(v[0], ob[1]))
+    if deep:
+      # the conversion to a GFA1 path must report the same items as an error
+      g1 = obs_gfa1(grp)
+      info["ops"] += 1
+      if g1[0] == "foreign":
+        probs.append(("foreign-exception", "to_gfa1/" + g1[1].split(":")[0],
+                      "gfapy.Error", {"raised": g1[1]}))
+      elif g1[0] == "P":
+        probs.append(("accepts-invalid-items", "to_gfa1", "gfapy.Error from "
+                      "to_gfa1(), as from captured_path (" + ob[1] + ")",
+                      {"to_gfa1": "P {} {}".format(",".join(g1[1]), g1[3])}))
     if v[0] in ("error", "lenient", "either"):
       key = "validate_on_unwalkable_path:" + ("silent" if verr is None
                                               else verr[1])
@@ -544,7 +563,7 @@ def plan(tier):
       if " " not in d:
         tasks.append(("Onest", "parC", "fwd", d))
   else:
-    for gname in GRAPHS:
+    for gname in ("cyc", "par", "parcyc", "cycC"):
       for d in o1_defs(tier):
         tasks.append(("Onest", gname, "fwd", d))
     for d in o1_defs(tier):
@@ -693,7 +712,7 @@ def cases_of(task):
               lines = others[:i] + [first] + others[i:j] + [second] + \
                   others[j:]
               yield ("M2/" + rt + "/" + mode, gname, lines,
-                     ["p"] + (["w"] if referrer and rt == "O" else []))
+                     ["p"] + (["w"] if referrer else []))
   elif fam == "M3":
     rt = task[2]
     items = task[3]
@@ -814,15 +833,27 @@ def run(ctx):
       ["(+ e2p/e3/e3c/e2pc +- in the 'ext' families)"],
       "O list length": "<= 3",
       "nested o1": "all lists of length <= 2 over " +
-      ("the 10 base atoms" if tier == "thorough" else
-       "{a+ b+ b- e1+ e1- e2+} (complete sub-family)"),
+      ("the 10 base atoms, on graphs cyc/par/parcyc/cycC (+ cyc group-first)"
+       if tier == "thorough" else
+       "{a+ b+ b- e1+ e1- e2+} (complete sub-family) on graph cyc, the 6 "
+       "single-item lists also on parC"),
       "U items": U_ATOMS, "U list length": "<= 3",
       "U nested o1": U_O1_DEFS[:3] if ctx.quick else U_O1_DEFS,
       "U nested u0": "all lists of length <= 2 over " +
       ("{c e2 o1}" if ctx.quick else "{a b c e1 e2 g1 o1}"),
       "multi-line": "every split of every list of length 2..3 into two lines "
       "x tag modes x both arrival orders x every placement of the two lines "
-      "among the other lines; three-line groups in all 6 arrival orders",
+      "among the other lines (graph cyc, optionally a line `O w p+`/`U w p` "
+      "that mentions the group); three-line groups in all 6 arrival orders x 3 "
+      "placements",
+      "multi-line item alphabets": (
+          {"O": "{a+ o1-}: all 8 tag modes; with referrer: 3 core modes",
+           "U": "{a u0}: all 8 tag modes; with referrer: 3 core modes"}
+          if ctx.quick else
+          {"O": "all 10 base atoms: 3 core modes; {a+ b+ e2- o1-} with "
+                "referrer: all 8 modes",
+           "U": "{a b e1 g1 o1 u0}: 3 core modes; {a e1 u0} with referrer: "
+                "all 8 modes"}),
       "tag modes": {k: list(v) for k, v in TAGMODES.items()},
       "arrival orders of single-line documents": ["definitions first",
                                                   "reversed (group first)"],
@@ -833,9 +864,9 @@ def run(ctx):
       "Gfa.validate() is only required to report undefined items, not "
       "non-contiguity (the suite's valid_path.gfa2 has no edges); what it does "
       "on unwalkable paths is counted in coverage.notes, not judged",
-      "a refused line (contradictory tag) ends the case; whether the Gfa is "
-      "unchanged afterwards is measured (coverage.c08_type_finding) and only "
-      "judged when GFAMC_C17_UNCHANGED=1",
+      "a refused line (contradictory tag) ends the case; the Gfa must then be "
+      "unchanged (written form, registered names, back-references of every "
+      "line) -- clause merge-refused-state-changed, a C08-type finding",
       "documents are built with Gfa(version='gfa2', vlevel=1) and add_line in "
       "the stated arrival order; no hairpin edges (both directions of a "
       "hairpin fit the same pair)",
